@@ -12,6 +12,9 @@ package main
 
 import (
 	"context"
+	"runtime/debug"
+	"sync/atomic"
+	"time"
 	"math/big"
 	"encoding/json"
 	"fmt"
@@ -45,7 +48,7 @@ var kindMuts = map[string][]string{
 	"refresh-partial": refreshMuts, "form": formMuts, "expire": nil,
 }
 
-var revisingKinds = []string{"roots", "append", "free", "fund", "replenish-accounts", "replenish-pools", "renew", "refresh-full", "refresh-partial"}
+var revisingKinds = []string{"roots", "append", "free", "fund", "replenish-accounts", "replenish-pools", "refresh-full", "refresh-partial", "renew"}
 
 type weighted struct {
 	kind string
@@ -132,6 +135,7 @@ func runPlan(w *world, p plan) *scenResult {
 			continue
 		}
 		sc.r = rng.New(p.Seed*7919 + uint64(i)*104729 + 17)
+		progress.Store(fmt.Sprintf("step %d (%s/%s)", i, st.Kind, st.Mut))
 		sc.step(st, p.Flavor)
 	}
 	bp := w.set.Prices
@@ -142,12 +146,22 @@ func runPlan(w *world, p plan) *scenResult {
 func (sc *scen) step(st planStep, flavor string) {
 	w := sc.w
 	if st.Kind == "expire" {
+		// mine until the tip is at the proof height of the current contract ("none"),
+		// one below it ("ph-1") or one above it ("ph+1")
 		if sc.cur != nil {
 			tip := w.cm.Tip().Height
-			if ph := sc.cur.rev.ProofHeight; ph > tip {
-				w.mine(int(ph - tip))
+			goal := sc.cur.rev.ProofHeight
+			switch st.Mut {
+			case "ph-1":
+				goal--
+			case "ph+1":
+				goal++
 			}
-			sc.steps = append(sc.steps, stepLog{Kind: "expire", Mut: "none", Verdict: "-"})
+			if goal > tip {
+				w.mine(int(goal - tip))
+			}
+			sc.steps = append(sc.steps, stepLog{Kind: "expire", Mut: st.Mut, Verdict: "-",
+				Detail: fmt.Sprintf("tip %d, proof height %d", w.cm.Tip().Height, sc.cur.rev.ProofHeight)})
 		}
 		return
 	}
@@ -662,8 +676,76 @@ func hasKind(fs []failure, kind string) bool {
 	return false
 }
 
+// env owns the world and runs scenarios so that one that cannot complete (a panic
+// in the harness or the code under test, a host that never answers, a chain that can
+// no longer be mined) is reported and the run goes on in a fresh world.
+type env struct {
+	w        *world
+	mk       func() *world
+	deadline time.Duration
+}
+
+var progress atomic.Value // where the running scenario is, for the did-not-complete report
+
+// maxHeight: the test network's difficulty adjustment makes instant mining slow
+// beyond a few thousand blocks (2500 blocks: 40 ms per 500, 4500: 27 s per 500)
+const maxHeight = 1800
+
+func (e *env) fresh() {
+	if e.w != nil {
+		old := e.w
+		go func() { defer func() { recover() }(); old.close() }()
+	}
+	e.w = e.mk()
+}
+
+// run plays a plan; nil result and a failure if it did not complete.
+func (e *env) run(p plan) (*scenResult, *failure) {
+	return e.guard(func(w *world) *scenResult { return runPlan(w, p) })
+}
+
+func (e *env) guard(body func(w *world) *scenResult) (*scenResult, *failure) {
+	if e.w == nil || e.w.cm.Tip().Height > maxHeight {
+		e.fresh()
+	}
+	w := e.w
+	type ret struct {
+		res *scenResult
+		err string
+	}
+	ch := make(chan ret, 1)
+	progress.Store("start")
+	go func() {
+		defer func() {
+			if r := recover(); r != nil {
+				stack := string(debug.Stack())
+				if len(stack) > 1500 {
+					stack = stack[:1500]
+				}
+				ch <- ret{nil, fmt.Sprintf("panic: %v\n%s", r, stack)}
+			}
+		}()
+		ch <- ret{body(w), ""}
+	}()
+	var why string
+	select {
+	case r := <-ch:
+		if r.err == "" {
+			return r.res, nil
+		}
+		why = r.err
+	case <-time.After(e.deadline):
+		why = fmt.Sprintf("no result within %v", e.deadline)
+	}
+	at, _ := progress.Load().(string)
+	// the world may hold a stuck handler or a broken chain: abandon it
+	e.w = nil
+	go func() { defer func() { recover() }(); w.close() }()
+	return nil, &failure{"c08-scenario-did-not-complete", fmt.Sprintf("the scenario stopped at %s: %s", at, why)}
+}
+
 // shrink drops steps while a failure of the same kind persists.
-func shrink(w *world, p plan, kind string) (plan, *scenResult) {
+func (e *env) shrink(p plan, kind string) (plan, *scenResult) {
 	mask := make([]bool, len(p.Steps))
 	for i := range mask {
 		mask[i] = p.Mask == nil || p.Mask[i]
@@ -671,7 +753,7 @@ func shrink(w *world, p plan, kind string) (plan, *scenResult) {
 	best := p
 	best.Mask = mask
 	var bestRes *scenResult
-	budget := 60
+	budget := 40
 	for i := len(mask) - 1; i >= 0 && budget > 0; i-- {
 		if !mask[i] || (p.Steps[i].Kind == "form" && p.Steps[i].Mut == "none") {
 			continue
@@ -681,8 +763,8 @@ func shrink(w *world, p plan, kind string) (plan, *scenResult) {
 		q := p
 		q.Mask = try
 		budget--
-		res := runPlan(w, q)
-		if hasKind(res.sc.fails, kind) {
+		res, _ := e.run(q)
+		if res != nil && hasKind(res.sc.fails, kind) {
 			mask = try
 			best, bestRes = q, res
 		}
@@ -695,30 +777,40 @@ func runC08(c *hx.Ctx) {
 	// rng.New(k) and rng.New(k+1) are the same stream shifted by one draw; hash the
 	// seed once so that neighbouring VERIF_SEEDs give unrelated scenarios
 	R := rng.New(rng.New(c.Seed).U64() ^ 0x5851F42D4C957F2D)
-	var w *world
-	freshWorld := func() {
-		if w != nil {
-			w.close()
-		}
-		w = newWorld(seedKeys(R.Fork()))
+	e := &env{deadline: time.Duration(c.Scale(20, 40)) * time.Second}
+	e.mk = func() *world {
+		w := newWorld(seedKeys(R.Fork()))
 		for i := 0; i < 24; i++ {
 			var h types.Hash256
 			R.Bytes(h[:])
 			w.storeSector(h)
 		}
+		return w
 	}
-	freshWorld()
-	defer func() { w.close() }()
+	e.fresh()
+	defer func() {
+		if e.w != nil {
+			e.w.close()
+		}
+	}()
 
+	reported := map[string]int{}
 	report := func(res *scenResult) {
 		seen := map[string]bool{}
 		for _, f := range res.sc.fails {
-			if seen[f.kind] {
-				c.Res.Count("fail:" + f.kind)
+			if seen[f.kind] || reported[f.kind] >= 3 {
+				// out.Result keeps three replays per kind: count the rest without shrinking
+				if !seen[f.kind] {
+					c.Res.Fail(f.kind, f.detail, nil)
+				} else {
+					c.Res.Count("fail:" + f.kind)
+				}
+				seen[f.kind] = true
 				continue
 			}
 			seen[f.kind] = true
-			p, sres := shrink(w, res.plan, f.kind)
+			reported[f.kind]++
+			p, sres := e.shrink(res.plan, f.kind)
 			detail := f.detail
 			steps := res.sc.steps
 			if sres != nil {
@@ -743,7 +835,11 @@ func runC08(c *hx.Ctx) {
 			} `json:"replay"`
 		}
 		must(json.Unmarshal(b, &rf))
-		res := runPlan(w, rf.Replay.Plan)
+		res, dnc := e.run(rf.Replay.Plan)
+		if dnc != nil {
+			c.Res.Fail(dnc.kind, dnc.detail, map[string]any{"plan": rf.Replay.Plan})
+			return
+		}
 		for _, f := range res.sc.fails {
 			c.Res.Fail(f.kind, f.detail, map[string]any{"plan": rf.Replay.Plan, "steps": res.sc.steps})
 		}
@@ -758,7 +854,7 @@ func runC08(c *hx.Ctx) {
 		// the reference contractor and the wallets do work proportional to the
 		// number of contracts and blocks: start over on a fresh chain now and then
 		if i > 0 && i%120 == 0 {
-			freshWorld()
+			e.fresh()
 		}
 		p := makePlan(R.U64(), nsteps)
 		// a scripted scenario first: the renewal id is asked for before the renewal exists
@@ -784,15 +880,25 @@ func runC08(c *hx.Ctx) {
 				{"renew", "coll-edge-above"}, {"refresh-partial", "coll-edge-below"}, {"append", "none"}, {"fund", "overflow-early"},
 				{"fund", "overflow-early-2"}, {"fund", "overflow"}, {"replenish-accounts", "overflow-early"}, {"replenish-pools", "overflow"},
 				{"renew", "coll-edge-below"}, {"roots", "none"}}
-		case 2: // every revising RPC, well-formed, after the proof height has been reached
+		case 2, 4, 5:
+			// the revisability boundary: tip exactly at the proof height (2), one below
+			// it (4: the last height at which consensus still takes a revision), one
+			// above it (5); then every revising RPC, well-formed (renewals last: one
+			// that is accepted below the boundary closes the contract)
 			p.Flavor = "short"
-			p.Steps = []planStep{{"form", "none"}, {"append", "none"}, {"append", "none"}, {"fund", "none"}, {"expire", "none"}}
+			at := map[int]string{2: "none", 4: "ph-1", 5: "ph+1"}[i]
+			p.Steps = []planStep{{"form", "none"}, {"append", "none"}, {"append", "none"}, {"fund", "none"}, {"expire", at}}
 			for _, k := range revisingKinds {
 				p.Steps = append(p.Steps, planStep{k, "none"})
 			}
 			p.Steps = append(p.Steps, planStep{"latest", "none"})
 		}
-		res := runPlan(w, p)
+		res, dnc := e.run(p)
+		if dnc != nil {
+			c.Res.Count("scenario-did-not-complete")
+			c.Res.Fail(dnc.kind, dnc.detail, map[string]any{"plan": p})
+			continue
+		}
 		sc := res.sc
 		if len(sc.fails) > 0 {
 			report(res)
@@ -813,7 +919,12 @@ func runC08(c *hx.Ctx) {
 	}
 	// two goroutines on one contract
 	for i := 0; i < c.Scale(6, 60); i++ {
-		fs := raceScenario(w, R.U64())
+		seed := R.U64()
+		var fs []failure
+		_, dnc := e.guard(func(w *world) *scenResult { fs = raceScenario(w, seed); return nil })
+		if dnc != nil {
+			fs = []failure{*dnc}
+		}
 		c.Res.Count("race-scenarios")
 		for _, f := range fs {
 			c.Res.Fail(f.kind, f.detail, map[string]any{"race": true, "seed": c.Seed})
